@@ -385,6 +385,54 @@ def rule_r3(ctx: Ctx) -> None:
         ctx.check(good, al.short, "pads forward to the next multiple", "alignment only moves forward by alignment - (offset mod alignment)", al.where(), nontrivial=False)
 
 
+def _max0_arg(e: ast.AST) -> Optional[ast.AST]:
+    """max(0, X) -> X"""
+    if isinstance(e, ast.Call) and dotted(e.func) == "max" and len(e.args) == 2:
+        a, b = e.args
+        if isinstance(a, ast.Constant) and a.value == 0:
+            return b
+        if isinstance(b, ast.Constant) and b.value == 0:
+            return a
+    return None
+
+
+def rule_r5(ctx: Ctx) -> None:
+    ctx.rule("C07.R5", "limit accounting agrees between siblings: the bits still available to a bounded reader are the same quantity in read_bits and in remaining_bits, and equal the given limit right after construction", min_instances=2)
+    rb = ctx.func(SD + "._BitReader.read_bits")
+    rem = ctx.func(SD + "._BitReader.remaining_bits")
+    init = ctx.func(SD + "._BitReader.__init__")
+    # read_bits: the quantity compared with bit_length on the limited branch
+    avail_rb = None
+    for p in paths_of(rb.node):
+        for c, pol in p.conds:
+            if not isinstance(c, tuple) and isinstance(c, ast.Compare) and norm(c.left) == rb.params[1] and isinstance(c.ops[0], ast.Gt):
+                avail_rb = _max0_arg(c.comparators[0])
+    avail_rem = None
+    for p in paths_of(rem.node):
+        if p.kind == "return" and any(not isinstance(c, tuple) and "self._bit_limit is not None" == norm(c) and pol for c, pol in p.conds):
+            avail_rem = _max0_arg(p.value)
+    if avail_rb is None or avail_rem is None:
+        ctx.fail("_serdes._BitReader", "available bits", "cannot find max(0, limit - consumed) in read_bits / remaining_bits", where=rb.where(), detail={"read_bits": norm(avail_rb) if avail_rb else None, "remaining_bits": norm(avail_rem) if avail_rem else None})
+        return
+    la, lr = lin_of(avail_rb), lin_of(avail_rem)
+    ctx.check((la - lr).is_zero(), "_serdes._BitReader", "read_bits: %s ; remaining_bits: %s" % (la, lr), "both must compute the same remaining bit count, otherwise header validation and reading disagree about the sub-reader's window", rem.where())
+    # right after construction the available count equals the limit argument
+    stores = {}
+    for st in walk_no_nested(init.node):
+        if isinstance(st, (ast.Assign, ast.AnnAssign)):
+            t = st.targets[0] if isinstance(st, ast.Assign) else st.target
+            if norm(t).startswith("self._") and st.value is not None:
+                stores[norm(t)] = st.value
+    env = {k: v for k, v in stores.items() if k in ("self._bit_limit", "self._bit_offset", "self._start_offset")}
+    if len(env) != 3:
+        raise AnalysisError("_BitReader.__init__: expected stores to _bit_limit/_bit_offset/_start_offset, found %s" % sorted(env))
+    from ..decide import substitute
+
+    at_init = lin_of(substitute(avail_rem, env))
+    want = Lin({"bit_limit": 1})
+    ctx.check((at_init - want).is_zero(), init.short, "available at construction = %s" % at_init, "a fresh bounded reader has exactly `bit_limit` bits available, wherever it starts", init.where(), {k: norm(v) for k, v in env.items()})
+
+
 def rule_r4(ctx: Ctx) -> None:
     repo = ctx.repo
     ctx.rule("C07.R4", "no hidden inputs: _serdes has no module-level mutable state, no global statements, no environment / clock / random access", min_instances=1)
@@ -403,4 +451,5 @@ def run(ctx: Ctx) -> None:
     rule_r2(ctx)
     rule_r3(ctx)
     rule_r4(ctx)
+    rule_r5(ctx)
     ctx.undecided("the fixed-point clause (deserialize . serialize . deserialize), bit values of decoded numbers, decode(b) == decode(b + zeros) as a value fact, running time for huge declared lengths")
